@@ -115,7 +115,7 @@ def run(chk):
     # 1. translate (T-data) and prove
     cats, ref, blocks = gen_c13.generate()
     chk.forbidden_scan(['C13', 'Gen'])
-    proved = chk.prove(['theories/C13/Model.v', 'theories/C13/Proofs.v', 'theories/C13/Checkers.v',
+    proved = chk.prove(['theories/Gen/C13Shape.v', 'theories/C13/Model.v', 'theories/C13/Proofs.v', 'theories/C13/Checkers.v',
                         'theories/Gen/C13Tables.v', 'theories/C13/Tables.v', 'theories/C13/Run.v'],
                        'theories/C13/Properties.v')
     if not proved:
